@@ -40,6 +40,7 @@ type channelState struct {
 
 func newChannelState(conn internalConn, client bool, id bin.Bin128, window int32) *channelState {
 	s := channelStatePool.New()
+	vpoolGet(s)
 	s.id = id
 	s.ctx = newContext(conn)
 	s.conn = conn
@@ -57,6 +58,7 @@ func openChannelState(conn internalConn, client bool, msg pmpx.ChannelOpen) *cha
 	window := msg.Window()
 
 	s := channelStatePool.New()
+	vpoolGet(s)
 	s.id = id
 	s.ctx = newContext(conn)
 	s.conn = conn
@@ -225,5 +227,6 @@ var channelStatePool = pools.NewPoolFunc(
 
 func releaseChannelState2(s *channelState) {
 	s.reset()
+	vpoolPut(s)
 	channelStatePool.Put(s)
 }
